@@ -196,13 +196,41 @@ func instrumentWindows(src, dst string, funcs map[string]bool) error {
 		pos := fset.Position(s.Pos())
 		edits = append(edits, edit{off: pos.Offset, text: fmt.Sprintf("verifWindow(%q, %s); ", fmt.Sprintf("%s:%d", curFunc, pos.Line), ctxExpr)})
 	}
+	// no point inside a critical section: a goroutine parked there keeps the mutex, and whoever waits for a mutex is
+	// not durably blocked for synctest - the bubble would never settle (an artefact of parking, not of the library)
+	locked := 0
+	lockCall := func(s ast.Stmt) (name string, deferred bool) {
+		var call *ast.CallExpr
+		switch st := s.(type) {
+		case *ast.ExprStmt:
+			call, _ = st.X.(*ast.CallExpr)
+		case *ast.DeferStmt:
+			call, deferred = st.Call, true
+		}
+		if call == nil {
+			return "", false
+		}
+		if sel, ok := call.Fun.(*ast.SelectorExpr); ok {
+			return sel.Sel.Name, deferred
+		}
+		return "", false
+	}
 	walkStmt = func(s ast.Stmt, canInsert bool) {
-		if canInsert {
+		name, deferred := lockCall(s)
+		if (name == "Unlock" || name == "RUnlock") && !deferred && locked > 0 {
+			locked--
+			return // the unlocking statement itself gets no point in front of it either
+		}
+		if canInsert && locked == 0 {
 			switch s.(type) {
 			case *ast.LabeledStmt, *ast.CaseClause, *ast.CommClause, *ast.BlockStmt, *ast.EmptyStmt:
 			default:
 				point(s)
 			}
+		}
+		if name == "Lock" || name == "RLock" {
+			locked++
+			return
 		}
 		switch st := s.(type) {
 		case *ast.BlockStmt:
@@ -233,9 +261,17 @@ func instrumentWindows(src, dst string, funcs map[string]bool) error {
 			walkBlock(st.Body)
 		}
 	}
+	depth := 0
 	walkBlock = func(list []ast.Stmt) {
+		// an Unlock inside a nested block belongs to an early exit of that block: the enclosing section stays locked
+		saved := locked
+		depth++
 		for _, s := range list {
 			walkStmt(s, true)
+		}
+		depth--
+		if depth > 0 {
+			locked = saved
 		}
 	}
 	for _, d := range f.Decls {
@@ -264,6 +300,7 @@ func instrumentWindows(src, dst string, funcs map[string]bool) error {
 			continue
 		}
 		curFunc = fd.Name.Name
+		locked = 0
 		walkBlock(fd.Body.List)
 	}
 	sort.SliceStable(edits, func(i, j int) bool { return edits[i].off > edits[j].off })
